@@ -892,3 +892,53 @@ package nbs
 //@   also_modifies verif_ghost.iRead, verif_ghost.jValidOK
 //@   loop 1
 //@     invariant off - offin == verif_ghost.iRead - old(verif_ghost.iRead) && !recovered && rdr != nil
+
+// conjoin: the manifest update that swaps the conjoined table file in is a compare-and-swap on the lock of the
+// upstream contents it was computed from, and carries root, gc generation, format version and appendix over
+// unchanged; after a lost race it is recomputed from the contents the manifest handed back, and from nothing else
+//@ func (*conjoinOperation).updateManifest
+//@   property C05
+//@   at call Update: assert arg3:hash.Hash == upstream.lock
+//@   at call Update: assert newContents.root == upstream.root && newContents.gcGen == upstream.gcGen && newContents.nbfVers == upstream.nbfVers && verif_sameslice(newContents.appendix, upstream.appendix)
+//@   at call Update: assert verif_sameslice(newContents.specs, newSpecs)
+//@   also_modifies verif_ghost.uCalled, verif_ghost.uLastLock, verif_ghost.uNewRoot, verif_ghost.uNewLock
+
+// ---- archive footer and in-memory archive index accessors (C10)
+
+// buildArchiveFooter: no panic on ANY 'footer-sized' buffer (both callers establish the size); a footer is accepted only
+// with the archive signature and a supported format version
+//@ func buildArchiveFooter
+//@   property C10
+//@   nopanic
+//@   requires uint64(len(buf)) == archiveFooterSize
+//@   ensures  err == nil ==> f.formatVersion <= archiveFormatVersionMax && f.fileSize == fileSize
+//@   modifies nothing
+
+// newArchiveReaderFromFooter hands buildArchiveFooter only a footer of exactly that size
+//@ func newArchiveReaderFromFooter
+//@   property C10
+//@   at call buildArchiveFooter: assert uint64(len(arg2:[]byte)) == archiveFooterSize
+
+// accessors of the in-memory archive index never panic, for any index (out-of-range indexes read as zero)
+//@ func (*inMemoryArchiveIndexReader).getPrefix
+//@   property C10
+//@   nopanic
+//@   requires f != nil
+//@   modifies nothing
+//@   ensures  len(f.prefixes) < 1<<32 && int(idx) < len(f.prefixes) ==> result == f.prefixes[idx]
+//@ func (*inMemoryArchiveIndexReader).getSpanIndex
+//@   property C10
+//@   nopanic
+//@   requires f != nil
+//@   modifies nothing
+//@   ensures  len(f.spanIndex) < 1<<32 && int(idx) < len(f.spanIndex) ==> result == f.spanIndex[idx]
+//@ func (*inMemoryArchiveIndexReader).getChunkRef
+//@   property C10
+//@   nopanic
+//@   requires f != nil
+//@   modifies nothing
+//@ func (*inMemoryArchiveIndexReader).getSuffix
+//@   property C10
+//@   nopanic
+//@   requires f != nil && len(f.suffixes) == 12*len(f.prefixes)
+//@   modifies nothing
